@@ -234,6 +234,20 @@ type UndefCase struct {
 	K       int  `json:"k"`
 	AsStage bool `json:"as_stage"`
 	InDir   bool `json:"in_dir"` // the reference sits in the task's dir instead of command K
+	Form    int  `json:"form"`   // how the command refers to the variable, see undefForms
+}
+
+// the reference in its plain form and inside the constructs in which an undefined variable would
+// otherwise vanish silently
+var undefForms = []string{
+	"{{ .no_such_variable }}",
+	"{{ if .no_such_variable }}yes{{ end }}",
+	"{{ with .no_such_variable }}{{ . }}{{ end }}",
+	"{{ range .no_such_variable }}x{{ end }}",
+	"{{ not .no_such_variable }}",
+	"{{ $v := .no_such_variable }}{{ $v }}",
+	"{{ printf \"%v\" .no_such_variable }}",
+	"{{ .no_such_variable.field }}",
 }
 
 func runUndef(c UndefCase, dir string) error {
@@ -242,7 +256,7 @@ func runUndef(c UndefCase, dir string) error {
 	var cmds gen.List
 	for i := 0; i < c.N; i++ {
 		if i == c.K && !c.InDir {
-			cmds = append(cmds, fmt.Sprintf("printf 'RAN:%d:%%s\\n' '{{ .no_such_variable }}' >> %s", i, trace))
+			cmds = append(cmds, fmt.Sprintf("printf 'RAN:%d:%%s\\n' '%s' >> %s", i, undefForms[c.Form%len(undefForms)], trace))
 		} else {
 			cmds = append(cmds, fmt.Sprintf("printf 'RAN:%d\\n' >> %s", i, trace))
 		}
@@ -287,11 +301,31 @@ func TestUndefined(t *testing.T) {
 	for n := 1; n <= 4; n++ {
 		for pos := 0; pos <= n; pos++ {
 			for stage := 0; stage < 2; stage++ {
+				if n == 2 && pos < n && stage == 0 {
+					// every form of reference once more, at both positions of a two-command task
+					for f := range undefForms {
+						k++
+						if k%nsh != idx {
+							continue
+						}
+						c := UndefCase{N: n, K: pos, Form: f}
+						dir := filepath.Join(root, fmt.Sprint("u", k))
+						os.MkdirAll(dir, 0o755)
+						b, _ := json.Marshal(c)
+						drv.Eval("undefined-variable", fmt.Sprintf("form=%d", f))
+						drv.NonTrivial(string(b))
+						err := runUndef(c, dir)
+						os.RemoveAll(dir)
+						if err != nil {
+							drv.Fail(t, "undefined", "", c, "%v; reference %s; case %s", err, undefForms[f], b)
+						}
+					}
+				}
 				k++
 				if k%nsh != idx {
 					continue
 				}
-				c := UndefCase{N: n, K: pos, AsStage: stage == 1, InDir: pos == n}
+				c := UndefCase{N: n, K: pos, AsStage: stage == 1, InDir: pos == n, Form: k % len(undefForms)}
 				dir := filepath.Join(root, fmt.Sprint("u", k))
 				os.MkdirAll(dir, 0o755)
 				b, _ := json.Marshal(c)
